@@ -69,6 +69,14 @@ Theorem C16_encoder_from_source : forall f : list N, Forall (fun b => (b < 256)%
 Proof. exact go_cobsEncode_is_model. Qed.
 Print Assumptions C16_encoder_from_source.
 
+(* with C16_cobs_roundtrip: what the printed encoder emits is decoded (by the model of cobsDecodeInplace) to the frame *)
+Theorem C16_printed_encoder_decodes : forall f : list N, Forall (fun b => (b < 256)%N) f -> frame_len_ok f ->
+  exists e, srun go_client_cobsEncode [map Z.of_N f] = Some (map Z.of_N e) /\ decode e = Some f.
+Proof.
+  intros f Hok Hlen. exists (encode f). split; [exact (go_cobsEncode_is_model f Hok Hlen)|exact (cobs_roundtrip f Hok)].
+Qed.
+Print Assumptions C16_printed_encoder_decodes.
+
 (* the premises are satisfiable and the printed function runs: a frame with zeros, the empty frame *)
 Example C16_encoder_from_source_example :
   srun go_client_cobsEncode [[1; 0; 2; 3]%Z] = Some [2; 1; 3; 2; 3; 0]%Z /\
